@@ -309,8 +309,11 @@ def main(pid, tier, seed, replay=None):
             if clause in ("OnlyAdmitted", "MissingLog", "MissingOrOutOfOrder", "SpuriousLog"):
                 run.violation({"clause": "CustomFilter:" + clause}, {k: sc_by[v["tid"]][k] for k in ("hist", "seed", "admit", "rate", "k")})
     plan.append({"family": "custom filters: random subsets of the scripted program's functions (tracer replay)", "cases": len(trecs)})
+    from . import replay_run
+    extended = None if replay else replay_run.extended_stage(tier, seed)
     cov = {
         "states": states + tstates, "transitions": trans + ttrans,
+        "extended_spec": extended,
         "traces_validated_against_impl": len(allrecs) + len(trecs),
         "evaluations": len(allrecs) + len(trecs),
         "distinct_nontrivial": sum(1 for r in recs if r["kind"] == "real") + len(trecs),
